@@ -692,6 +692,30 @@ pub fn train_ledger(spec: &NetSpec, iters: usize, seed: u64) -> TrainLedger {
                 probe("input of the last iteration, model dropped", iters - 1, pi, &mut failures);
                 probe("target of the last iteration, model dropped", iters - 1, pt, &mut failures);
             }
+            // inference after training: every parameter frozen, plain inputs fed through the layers directly, outputs
+            // dropped - each input owns its buffer again, the previous one and the last one
+            for l in layers.iter_mut() {
+                for p in l.parameters() {
+                    p.stop_tracking();
+                }
+            }
+            let mut prev_inf: Option<Array> = None;
+            for k in 0..3 {
+                let x = arr_t(&gen_input(&mut r, spec, false));
+                let mine = x.clone();
+                let mut y = x;
+                for l in layers.iter() {
+                    y = l.forward(y);
+                }
+                drop(y);
+                if let Some(p) = prev_inf.take() {
+                    probe("input of the previous inference call (all parameters frozen)", iters + k - 1, p, &mut failures);
+                }
+                prev_inf = Some(mine);
+            }
+            if let Some(p) = prev_inf.take() {
+                probe("input of the last inference call (all parameters frozen)", iters + 2, p, &mut failures);
+            }
         }
         let after = ledger::live();
         if round == 1 {
